@@ -235,8 +235,17 @@ def context_facts():
     return facts
 
 
+class Grumpy:
+    """An argument that cannot be printed: formatting it for a message must never decide whether a payload runs."""
+
+    def __repr__(self):
+        raise ValueError("this object does not want to be printed")
+
+    __str__ = __repr__
+
+
 def build_args(world, pid, pspec):
-    args = tuple([list(a) if isinstance(a, list) else a for a in pspec.get("args", [])])
+    args = tuple([list(a) if isinstance(a, list) else Grumpy() if a == "<grumpy>" else a for a in pspec.get("args", [])])
     kwargs = {k: (dict(v) if isinstance(v, dict) else v) for k, v in pspec.get("kwargs", {}).items()}
     world.args[pid] = (args, kwargs)
     return args, kwargs
@@ -782,6 +791,13 @@ def play(world, ops, by):
                     LOG("raised", op="second_accept", by=by, gen=world.gen, exc=type(err).__name__, msg=str(err)[:200])
                 else:
                     LOG("return", op="second_accept", by=by, gen=world.gen)
+                if len(op) > 1 and op[1] == "cleanup":
+                    # the usual try/finally around a runner: shut it down although it never got to accept
+                    try:
+                        other.shutdown()
+                        LOG("rejected-runner-shut-down", by=by, gen=world.gen)
+                    except BaseException as err:  # noqa: B036
+                        LOG("raised", op="shutdown-of-rejected-runner", by=by, gen=world.gen, exc=type(err).__name__, msg=str(err)[:200])
             elif kind == "gc":
                 gc.collect()
             elif kind == "drop_service":
@@ -845,7 +861,10 @@ def driver(world):
     if not world.accept_done.is_set():
         # the harness ends the generation
         time.sleep(world.spec.get("linger", 0.0))
-        if not world.accept_done.is_set() and world.runner.running.is_set():
+        with LOG.lock:
+            was_up = any(e["kind"] == "running-observed" and e.get("gen") == world.gen for e in LOG.events)
+        if not world.accept_done.is_set() and (world.runner.running.is_set() or was_up):
+            # also when the runner reported running once and no longer does (its accept loop gave up by itself)
             LOG("call", op="shutdown", by="harness", gen=world.gen)
             try:
                 world.runner.shutdown()
